@@ -198,6 +198,12 @@ def _noise_raw(proto, noise, when):
             proto.get_info_incremental("ns/all", got.append).addErrback(lambda f: None)
             proto.dataReceived(b"250+ns/all=\r\nr relay AAAA BBBB 2030-01-01 00:00:00 10.0.0.1 9001 0\r\ns Fast Running\r\n.\r\n250 OK\r\n")
         return
+    if shape == "queuedinfo":
+        # another part of the application asks for other keys while our request is in flight: its GETINFO waits in the
+        # queue behind ours; our reply is ours alone
+        if when == "during":
+            proto.get_info("other/key", "config-file").addBoth(lambda _: None)
+        return
     if shape == "cancel":
         if when == "before":
             d0 = proto.get_info("version")
